@@ -3,7 +3,7 @@
 set -e
 prop=$1; name=$2; testf=$3; msgf=$4
 cd /repo
-patch -p1 -s < /verif/proposed_fixes/$name.patch
+patch -p1 -s --no-backup-if-mismatch < /verif/proposed_fixes/$name.patch
 /venv/bin/python -m pytest -q -p no:cacheprovider $testf 2>&1 | tail -1
 git commit -qa -F $msgf
 C=$(git log --format=%h -1)
